@@ -17,6 +17,10 @@ ASSUME_CHILDREN = "abstract children: m.deserialize(x) returns img(m,x) iff acc(
 def generic_replay(rp: dict) -> int:
     """re-run a replay file: P obligations are re-verified, driver cases are re-run by the driver"""
     print(json.dumps({k: rp.get(k) for k in ("property", "signature", "summary", "obligation", "function", "case", "observed", "expected")}, indent=1, default=str))
+    if rp.get("driver") in ("validators_gating", "objects_with_validators"):
+        from drivers import validators_gating
+
+        return validators_gating.replay(rp)
     if rp.get("driver") == "deserialize_vs_reference" or (rp.get("driver") or "").startswith("deserialize_"):
         from drivers import deser_e2e
 
